@@ -80,7 +80,15 @@ func c05Judge(c *Ctx, cs *Case) {
 		}
 		return
 	}
-	v, m, _ := stdJudge(c, cs, RunOpts{}, JudgeOpts{})
+	var v string
+	var m *ModelOut
+	if cs.X != nil && cs.X["model_steps"] != "" {
+		m = RunModel(cs.Src, "", false, 60000000)
+		o := RunLib(cs.Src, RunOpts{MaxSteps: int64(3*m.Res.Steps + 10000)})
+		v = CompareModel(c, m, o, JudgeOpts{})
+	} else {
+		v, m, _ = stdJudge(c, cs, RunOpts{}, JudgeOpts{})
+	}
 	if v == "" && m.Res != nil {
 		st := m.Res.Stats
 		if st.LoopIters > 0 || st.IfTaken+st.ElseTaken > 0 {
@@ -210,6 +218,31 @@ func c05Run(c *Ctx) {
 			c05Judge(c, &Case{Gen: "handwritten-cli", Mode: "cli", Src: src})
 		}
 	}
+	// 4b. loops whose body is empty: the condition (and increment) still run every round
+	for _, src := range []string{
+		pre + Lines(Var("i", "0"), While(`c("cond", (i = i + 1) < 4)`, "{}"), Print("i")),
+		pre + Lines(Var("n", "0"), Fun("step", "", " n = n + 1; "+Print("n")+" "+Ret("n < 3")+" "), While("step()", "{}"), Print("n"), While("step()", "{ }"), Print("n")),
+		pre + Lines(For(Var("i", `c("init", 0)`), `c("cond", i < 3)`, `i = c("inc", i + 1)`, "{}"), Var("k", "0"), For(";", `c("cond", (k = k + 1) < 3)`, "", "{}"), Print("k")),
+		pre + Lines(Var("i", "0"), For(Var("o", "0"), "o < 2", "o = o + 1", "{ i = 0; "+While(`c("cond", (i = i + 1) < 3)`, "{}")+" }"), Print("i")),
+		pre + Lines(Var("i", "0"), While(`c("cond", (i = i + 1) < 4)`, "{ { } }"), Print("i"), If(`c("ifcond", `+True()+`)`, "{}"), IfElse(`c("ifcond", `+False()+`)`, "{}", "{}"), Print(`"done"`)),
+	} {
+		if c.Mine() {
+			c05Judge(c, &Case{Gen: "empty-bodies", Src: src})
+		}
+		if c.Mine() {
+			c05Judge(c, &Case{Gen: "empty-bodies-cli", Mode: "cli", Src: src})
+		}
+	}
+	// 4c. long-running loops: more than a million rounds in one run, in one loop, in consecutive loops, nested
+	for _, src := range []string{
+		Lines(Var("i", "0"), While("i < 1200000", "{ i = i + 1; }"), Print("i")),
+		Lines(Var("t", "0"), For(Var("a", "0"), "a < 400000", "a = a + 1", "{ t = t + 1; }"), For(Var("a", "0"), "a < 400000", "a = a + 1", "{ t = t + 1; }"), For(Var("a", "0"), "a < 400000", "a = a + 1", "{ t = t + 1; }"), Print("t")),
+		Lines(Var("t", "0"), For(Var("a", "0"), "a < 1100", "a = a + 1", "{ "+For(Var("b", "0"), "b < 1000", "b = b + 1", "{ "+If("b == 999", Continue())+" t = t + 1; }")+" }"), Print("t")),
+	} {
+		if c.Mine() {
+			c05Judge(c, &Case{Gen: "long-running-loops", Src: src, X: map[string]string{"model_steps": "60000000"}})
+		}
+	}
 	// 5. random larger programs
 	r := c.Rand("random")
 	n := c.N(10000, 600000)
@@ -234,6 +267,6 @@ func init() {
 		Assumptions: []string{"every generated loop is bounded by construction; programs the model cannot finish in 200000 steps are skipped"},
 		Run:         c05Run,
 		Judge:       c05Judge,
-		MustCount:   func(c *Ctx) []string { return []string{"gen:loop-skeletons", "gen:arm-selection", "gen:stray-signals", "breaks_taken", "continues_taken", "then_arms", "else_arms", "fault:StrayBreak", "fault:StrayContinue", "fault:StrayReturn", "cli_runs"} },
+		MustCount:   func(c *Ctx) []string { return []string{"gen:loop-skeletons", "gen:empty-bodies", "gen:long-running-loops", "gen:arm-selection", "gen:stray-signals", "breaks_taken", "continues_taken", "then_arms", "else_arms", "fault:StrayBreak", "fault:StrayContinue", "fault:StrayReturn", "cli_runs"} },
 	})
 }
